@@ -62,6 +62,9 @@ def run(cx):
     if bf:
         from rules.C01 import curve2_closedness_rules
         curve2_closedness_rules(cx, bf, bf.aggregates('geom2::curve2::Curve2'))
+    # every portion is cut at stations found by at_length: an exact vertex hit is that vertex, otherwise the segment before the insertion point (rule shared with C01)
+    from rules.C01 import at_length_rules
+    at_length_rules(cx, C, 'Curve2', 'CurveStation2')
     # ---------------------------------------------------------------- between_lengths
     b = cx.fn(f'{C}::between_lengths')
     if b:
@@ -135,6 +138,21 @@ def run(cx):
                 for d2 in b.defs().get(wr[0], []):
                     if d2[0] in blocks and simplify(b.dag().defdag(wr[0], d2)) != ('const', False):
                         ok_t = False
+            # the two ways out of the walk, and no other: past the last index (end of the curve), or - still at or before the end station -
+            # when the next vertex lies beyond the end station's segment
+            NEXT1 = '(add 1 (phi (field index (loop)) (field index %s)))' % START
+            OVER = f'(lt (has (call *Curve2::count (param self))) {NEXT1})'
+            BEFORE = f'(le (call *length_along (phi (loop) {START})) (call *length_along {END}))'
+            PAST = f'(lt (field index {END}) {NEXT1})'
+            exits = sorted({t for bi in blocks for t in b.succ[bi] if t not in blocks and t in b.reachable()})
+            xk = []
+            for t in exits:
+                o1, _ = cx.all_paths(b, t, lambda has: has(OVER, True))
+                o2, _ = cx.all_paths(b, t, lambda has: has(OVER, False) and has(BEFORE, True) and has(PAST, True))
+                xk.append('end-of-curve' if o1 else 'reached-end-station' if o2 else 'other')
+            cx.ob('GUARD', 'between_lengths:stop', sorted(xk) == ['end-of-curve', 'reached-end-station'],
+                  'the walk stops exactly when the next index passes last_index, or when the walker is at or before the end station (length_along <=, equality included: '
+                  'a walker standing exactly on the end station stops) and the next vertex lies beyond the end station\'s edge', where=b.file, found=str(xk))
             cx.ob('TERM', 'between_lengths:walk', ok_t and kinds == {'advance', 'wrap'},
                   'every cycle of the walk either moves to at_vertex(index+1) under index+1 <= last_index, or clears the one-shot wrap flag (under wrap) and restarts at the front',
                   where=b.file, found=str(sorted(kinds)))
